@@ -11,7 +11,8 @@ UNITS = {}
 
 
 class Unit:
-    def __init__(self, name, props, targets, run, skeletons, expect="proved", note="", inlined=(), stubs=()):
+    def __init__(self, name, props, targets, run, skeletons, expect="proved", note="", inlined=(), stubs=(), mode="proof"):
+        self.mode = mode  # 'proof' (symbolic obligations) | 'bounded' (concrete contract evaluation only; never counted as proved)
         self.name = name
         self.props = list(props)
         self.targets = list(targets)  # qualified names of real functions under contract here
@@ -23,11 +24,11 @@ class Unit:
         self.stubs = list(stubs)  # callee contracts used instead of bodies
 
 
-def unit(name, props, targets, skeletons, expect="proved", note="", inlined=(), stubs=()):
+def unit(name, props, targets, skeletons, expect="proved", note="", inlined=(), stubs=(), mode="proof"):
     def deco(fn):
         if name in UNITS:
             raise RuntimeError(f"duplicate unit {name}")
-        UNITS[name] = Unit(name, props, targets, fn, skeletons, expect, note, inlined, stubs)
+        UNITS[name] = Unit(name, props, targets, fn, skeletons, expect, note, inlined, stubs, mode)
         return fn
 
     return deco
